@@ -545,6 +545,18 @@ def find_culprit(want, got):
 ROUTES = ("direct", "vf-return", "vf-locals")
 
 
+def describe(v):
+    """class of a (shrunk) literal for failure signatures"""
+    if isinstance(v, list):
+        return "list[" + describe(v[0]) + "]" if len(v) == 1 else "list"
+    if isinstance(v, dict):
+        if len(v) == 1:
+            (k, x), = v.items()
+            return "map{key " + value_class(k) + ": " + describe(x) + "}"
+        return "map"
+    return value_class(v)
+
+
 def deliver(route, v):
     if route == "direct":
         return real_roundtrip(v)
@@ -573,12 +585,7 @@ def route_fails(route, v):
         return None   # prepare_expression treats a falsy spec as absent; the blocks never pass one alone
     st, got = deliver(route, v)
     if st != "ok":
-        cls = "literal"
-        if isinstance(v, (list, dict)):
-            cls = "container"
-        else:
-            cls = value_class(v)
-        return (f"{route}: {cls} -> {st}", f"literal is not delivered at all: {st} {got!r}", [st, got])
+        return (f"{route}: {describe(v)} -> {st}", f"literal is not delivered at all: {st} {got!r}", [st, got])
     bad = find_culprit(v, got)
     if bad is None:
         return None
@@ -653,9 +660,10 @@ def check_value(ctx: Ctx, v, routes=ROUTES):
                 if not hypotheses_hold(c):
                     return False
                 rr = route_fails(route, c)
-                return rr is not None and rr[0] == sig
+                return rr is not None and rr[0].split(" -> ")[-1].split(": ")[-1] == sig.split(" -> ")[-1].split(": ")[-1]
             small = shrink_value(v, fails)
             rr = route_fails(route, small) or r
+            sig, what = rr[0], rr[1]
             ctx.fail(Failure(signature=sig, what=what, case={"kind": "value", "value": small, "route": route},
                              observed=rr[2], expected="norm(value): the literal itself (numeral strings as numbers)"))
 
